@@ -60,6 +60,9 @@ def systematic(tier):
 def random_case(rng, tier):
     n_progs = rng.randint(1, 3)
     progs = [programs.gen_process_program(rng, PROGRAM_CFG) for _ in range(n_progs)]
+    for prog in progs:
+        if rng.random() < 0.2:
+            prog['codec'] = True  # the class stores inputs/outputs in a representation of its own
     persister = rng.choice(['none', 'memory', 'memory', 'pickle'])
     ops = []
     made = []  # indices of ops that produce a pid
